@@ -105,17 +105,21 @@ const (
 )
 
 type Fn struct {
-	ID     int      `json:"id"`
-	P      []Param  `json:"p,omitempty"`
-	R      []Result `json:"r,omitempty"`
-	Err    bool     `json:"err,omitempty"`    // has an error result
-	ErrT   string   `json:"errt,omitempty"`   // "iface": the error result is declared as an interface type that embeds error
-	ErrAt  int      `json:"errat,omitempty"`  // 0: error is the last result; k>0: error sits before result k-1 (clipped)
-	Var    string   `json:"var,omitempty"`    // variadic element type
+	ID  int      `json:"id"`
+	P   []Param  `json:"p,omitempty"`
+	R   []Result `json:"r,omitempty"`
+	Err bool     `json:"err,omitempty"` // has an error result
+	// Err2: a second error result, always the last result; a failing
+	// execution returns two distinct non-nil errors (either is "the
+	// function's own error"), a successful one two nils
+	Err2  bool   `json:"err2,omitempty"`
+	ErrT  string `json:"errt,omitempty"`  // "iface": the error result is declared as an interface type that embeds error
+	ErrAt int    `json:"errat,omitempty"` // 0: error is the last result; k>0: error sits before result k-1 (clipped)
+	Var   string `json:"var,omitempty"`   // variadic element type
 	// NilFn: the value passed is the nil value of the function type (a typed
 	// nil func): invalid input for Provide / Decorate / Invoke
-	NilFn bool `json:"nilfn,omitempty"`
-	Faults []int    `json:"faults,omitempty"` // per execution; beyond the list: ok
+	NilFn  bool  `json:"nilfn,omitempty"`
+	Faults []int `json:"faults,omitempty"` // per execution; beyond the list: ok
 	// EK / PK: what a failing execution fails with. EK 0: a plain sentinel
 	// error, 1: a sentinel error that wraps a dig.Error obtained elsewhere
 	// (as user code that uses a second container would return), 2: a typed nil
@@ -409,6 +413,9 @@ func (f *Fn) Short() string {
 		} else {
 			rs = append(rs, "error")
 		}
+	}
+	if f.Err && f.Err2 {
+		rs = append(rs, "error")
 	}
 	s := fmt.Sprintf("f%d(%s)(%s)", f.ID, strings.Join(ps, ","), strings.Join(rs, ","))
 	if len(f.Faults) > 0 {
